@@ -49,12 +49,19 @@ def _seq(stmts: List[ast.stmt], loops: int) -> Iterator[Tuple[Path, str]]:
                 yield steps + steps2, out2
 
 
+def _norm(test: ast.expr, decision: bool):
+    """Conditions are reported without leading `not`: (`not X`, True) is (X, False)."""
+    while isinstance(test, ast.UnaryOp) and isinstance(test.op, ast.Not):
+        test, decision = test.operand, not decision
+    return ("cond", test, decision)
+
+
 def _stmt(s: ast.stmt, loops: int) -> Iterator[Tuple[Path, str]]:
     if isinstance(s, ast.If):
         for steps, out in _seq(s.body, loops):
-            yield [("cond", s.test, True)] + steps, out
+            yield [_norm(s.test, True)] + steps, out
         for steps, out in _seq(s.orelse, loops):
-            yield [("cond", s.test, False)] + steps, out
+            yield [_norm(s.test, False)] + steps, out
     elif isinstance(s, (ast.For, ast.AsyncFor)):
         yield from _loop(s, loops, is_for=True)
     elif isinstance(s, ast.While):
@@ -73,8 +80,8 @@ def _stmt(s: ast.stmt, loops: int) -> Iterator[Tuple[Path, str]]:
     elif isinstance(s, ast.Continue):
         yield [], "continue"
     elif isinstance(s, ast.Assert):
-        yield [("cond", s.test, True)], "fall"
-        yield [("cond", s.test, False), ("end", "raise", s)], "raise"
+        yield [_norm(s.test, True)], "fall"
+        yield [_norm(s.test, False), ("end", "raise", s)], "raise"
     elif isinstance(s, (ast.FunctionDef, ast.AsyncFunctionDef, ast.ClassDef)):
         yield [("stmt", s)], "fall"
     else:
@@ -83,7 +90,7 @@ def _stmt(s: ast.stmt, loops: int) -> Iterator[Tuple[Path, str]]:
 
 def _loop(s, loops: int, is_for: bool) -> Iterator[Tuple[Path, str]]:
     def enter(flag):
-        return ("for", s, flag) if is_for else ("cond", s.test, flag)
+        return ("for", s, flag) if is_for else _norm(s.test, flag)
 
     # zero iterations
     for steps, out in _seq(s.orelse, loops):
